@@ -352,9 +352,9 @@ def run(ch, idx, tier):
         for key, co in list(progset.covouts.items()):
             if len(co.progs) >= 2:
                 names2 = list(co.progs.keys())[:2]
-                val = 0.5 * (co.progs[names2[0]] + co.progs[names2[1]])
+                val = 0.5 * (co.progs[names2[0]] + co.progs[names2[1]]) * 1.0123456789  # an outcome that needs many digits
                 inter = ch.pick("cov_interaction", ["additive", "random", "nested"])
-                progset.covouts[key] = at.programs.Covout(co.par, co.pop, dict(co.progs), cov_interaction=inter, imp_interaction=f"{names2[0]}+{names2[1]}={val:.6g}", uncertainty=co.sigma, baseline=co.baseline)
+                progset.covouts[key] = at.programs.Covout(co.par, co.pop, dict(co.progs), cov_interaction=inter, imp_interaction=f"{names2[0]}+{names2[1]}={val:.12g}", uncertainty=co.sigma, baseline=co.baseline)
                 explicit_inter = True
     mode = ch.pick("sigma_mode", ["positive", "asis", "mixed", "zero", "none"])
     if mode == "asis" and name not in ("uncertainty", "uncertainty_low"):
